@@ -76,12 +76,14 @@ def groupLengths : Bytes → Nat → List Nat
   | c :: r, n => if c = 44 then n :: groupLengths r 0 else groupLengths r (n + 1)
 
 /-- Grouping in threes from the right: the first group has 1–3 digits, all others exactly 3. -/
-def GroupedInThrees (s : Bytes) : Prop :=
+def groupedInThrees (s : Bytes) : Bool :=
   match groupLengths s 0 with
-  | [] => False
-  | g :: rest => 1 ≤ g ∧ g ≤ 3 ∧ ∀ x ∈ rest, x = 3
+  | [] => false
+  | g :: rest => decide (1 ≤ g) && decide (g ≤ 3) && rest.all (· == 3)
 
-/-- The lookup table text as a list of entries, first line first. -/
-def isSpaceB (b : UInt8) : Bool := (9 ≤ b && b ≤ 13) || b == 32
+/-- The number without its sign. -/
+def dropSign : Bytes → Bytes
+  | 45 :: r => r
+  | r => r
 
 end Rare.C11.Spec
